@@ -334,8 +334,21 @@ FamForge ==
                      vs \in {"mid", "over"}, ps \in {"none", "lt", "over", "umax"} },
           rest \in { <<Kind(8, 1, "v1")>>, <<Kind(8, 1, "v1"), Kind(8, 1, "v1s")>> }, pos \in {1, 2} }
 
+(***************************************************************************************************)
+(* long (C03, C09, C10): batches of 21-40 members (many model chunks) mixing aggregated members,      *)
+(* members seeded with either seed on either side, and plain ones, in all three modes                  *)
+(***************************************************************************************************)
+LongPat(p, x, k) ==
+  CASE p = 1 -> (IF x % 7 = 3 THEN "v2" ELSE IF x % 5 = 0 THEN "v1s" ELSE IF x % 5 = 2 THEN "v1t" ELSE IF x % 11 = 6 THEN "v1st" ELSE "v1")
+    [] p = 2 -> (IF x = k - 1 THEN "v4c8" ELSE IF x % 3 = 1 THEN "v1s" ELSE IF x % 4 = 2 THEN "v1ts" ELSE "v1")
+    [] p = 3 -> (IF x % 2 = 0 THEN "v2" ELSE "v1s")
+FamLong ==
+  { ScenF([x \in 1..k |-> Kind(nt[1], nt[2], LongPat(p, x, k))], mode, NoSkew, FALSE, <<Kind(nt[1], nt[2], "v1")>>) :
+      k \in {21, 26, 33, 40}, p \in {1, 2, 3}, nt \in {<<4, 1>>, <<2, 2>>}, mode \in Modes }
+
 Scenarios ==
   CASE Family = "complete" -> FamComplete
+    [] Family = "long"     -> FamLong
     [] Family = "forge"    -> FamForge
     [] Family = "hostile"  -> FamHostile
     [] Family = "roundtrip" -> FamRoundtrip
